@@ -62,8 +62,18 @@ def run(rep, tier):
     backends = ["model32"] if tier == "quick" else ["model32", "model32gi", "noop"]
     dbs = facts.load_core(backends, ["PTR", "INVOKE", "ARR"], thorough=(tier == "thorough"))
     n = {"producers": 0, "fns": 0, "deref": 0, "malloc": 0}
+    rep.rule("R-C03-example", "every context-free (example-based) pointer translation inside the wrappers and struct specialisations is given the address of the sandbox-memory object involved: a pointer decoded relative "
+             "to an application-side address (a local copy, the destination object) is a non-null tainted pointer outside the sandbox (shared analysis with C04's R-C04-example)")
+    from . import c04 as _c04
     for db in dbs:
         rep.units.append(db.label)
+        for f in db.functions:
+            if not f["dep"] and "body" in f and _c04.is_example_user(f):
+                try:
+                    _c04.check_example(rep, db, f, "%s | %s" % (db.label, f["full"][:150]), rule="R-C03-example")
+                except Inconclusive as ex:
+                    rep.inconclusive("R-C03-example", site(f), str(ex), "%s | %s" % (db.label, f["full"][:150]))
+    for db in dbs:
         for f in db.functions:
             if f["dep"] or "body" not in f or not f["n"].startswith("rlbox::"):
                 continue
